@@ -1,10 +1,14 @@
 #!/usr/bin/env python3
-"""Development aid: apply an inline mutation (or a patch file) to /repo's working tree, run
-checks, always restore.  usage: try_mutant.py <IDs comma> <file> <old> <new> | <IDs> --patch <diff>"""
-import subprocess, sys, os
+"""Development aid: apply an inline mutation (or a patch file) to a checkout's working tree, run
+checks, always restore the tree to what it was before (uncommitted edits are preserved).
+usage: [VERIF_REPO=/tmp/wt] try_mutant.py <IDs comma> <file> <old> <new>
+       [VERIF_REPO=/tmp/wt] try_mutant.py <IDs comma> --patch <diff>"""
+import subprocess, sys, os, tempfile
 ids = sys.argv[1].split(",")
 repo = os.environ.get("VERIF_REPO", "/repo")
-assert subprocess.run(["git", "-C", repo, "status", "--porcelain", "--untracked-files=no"], capture_output=True, text=True).stdout.strip() == "", "repo dirty"
+before = subprocess.run(["git", "-C", repo, "diff"], capture_output=True, text=True).stdout
+if repo == "/repo":
+    assert before.strip() == "", "/repo has uncommitted changes"
 try:
     if sys.argv[2] == "--patch":
         subprocess.check_call(["git", "-C", repo, "apply", sys.argv[3]])
@@ -18,6 +22,11 @@ try:
     for i in ids:
         r = subprocess.run(["/verif/check", i, tier], capture_output=True, text=True, env=dict(os.environ, VERIF_REPO=repo))
         lines = [l for l in r.stdout.splitlines() if l.startswith(("VIOLATION", "KNOWN", "MACHINERY", i))]
-        print(i, "exit", r.returncode, "|", " | ".join(lines[:3])[:400])
+        print(i, "exit", r.returncode, "|", " | ".join(lines[:3])[:500])
 finally:
     subprocess.check_call(["git", "-C", repo, "checkout", "--", "."])
+    if before.strip():
+        with tempfile.NamedTemporaryFile("w", suffix=".diff", delete=False) as t:
+            t.write(before)
+        subprocess.check_call(["git", "-C", repo, "apply", t.name])
+        os.unlink(t.name)
